@@ -222,7 +222,7 @@ Definition take_slot (x : cid) (id : nat) (c : config) : config :=
 
 (* the critical section at the top of start: the for-loop iteration under srv.mu, and, when
    the gate is free, everything up to the next Unlock *)
-Definition admit (x : cid) (c : config) : config :=
+Definition enter_start (x : cid) (c : config) : config :=
   match drain c with
   | DNil =>
     match starting c with
@@ -242,8 +242,8 @@ Definition step_start (P : params) (c : config) (x : cid) : option config :=
   | Pipe _ => None
   | Direct =>
     match spc c x with
-    | S0 => if pred_done P c x then Some (admit x (ev (EvIssue x) c)) else None
-    | SWaitGate h => if gate_rel c h then Some (admit x c) else None
+    | S0 => if pred_done P c x then Some (enter_start x (ev (EvIssue x) c)) else None
+    | SWaitGate h => if gate_rel c h then Some (enter_start x c) else None
     | SWaitFull => None
     | SFullWoken =>
       (* srv.mu.Lock(); id = srv.nextID(); if srv.drain != nil {...} *)
